@@ -534,6 +534,9 @@ inductive PNCond | valueUnset | hashTruthy | hashCallable
 inductive PNRes | none | strOfCustomHash | strOfHashValue | const (s : List Char)
 inductive PNTree | ret (r : PNRes) | ite (c : PNCond) (a b : PNTree)
 inductive Wrapper | evolve (overrides : List String) | construct (keywords : List String)
+/-- where a field of the `NodeInfo` of an argument comes from -/
+inductive NISrc | parameter | treePath | modulePath | moduleDir | taskName | other
+  deriving DecidableEq
 '''
 
 
@@ -823,6 +826,112 @@ def _dependency_wrapper(host):
     raise _err(f"collect_dependency: wrapper {_u(w)}")
 
 
+def _bind(call: ast.Call, params: list[str], what: str) -> dict:
+    out = {}
+    if len(call.args) > len(params) or any(isinstance(a, ast.Starred) for a in call.args):
+        raise _err(f"{what}: call {_u(call)[:80]}")
+    for p, a in zip(params, call.args):
+        out[p] = a
+    for k in call.keywords:
+        if k.arg is None or k.arg not in params or k.arg in out:
+            raise _err(f"{what}: keyword in {_u(call)[:80]}")
+        out[k.arg] = k.value
+    return out
+
+
+def _nodeinfo_wiring(host):
+    """Where the fields of the `NodeInfo` of a dependency / product argument come from: traced from
+    `collect.pytask_collect_task` through `parse_dependencies_from_task_function` / `parse_products_from_task_function`
+    and `_collect_nodes_and_provisional_nodes` (collect_utils.py) to the `NodeInfo(...)` call."""
+    cu = host._parse("collect_utils.py")
+    co = host._parse("collect.py")
+    helper = _func(cu, "_collect_nodes_and_provisional_nodes")
+    hparams = [a.arg for a in helper.args.args]
+    lambdas = [n for n in ast.walk(helper) if isinstance(n, ast.Lambda)]
+    if len(lambdas) != 1 or len(lambdas[0].args.args) != 2:
+        raise _err("_collect_nodes_and_provisional_nodes: expected one two-argument lambda")
+    lp, lx = (a.arg for a in lambdas[0].args.args)
+    tm = [n for n in ast.walk(helper) if isinstance(n, ast.Call) and _u(n.func) == "tree_map_with_path"]
+    if len(tm) != 1 or tm[0].args[0] is not lambdas[0]:
+        raise _err("_collect_nodes_and_provisional_nodes: the lambda is not mapped with tree_map_with_path")
+    nis = [n for n in ast.walk(lambdas[0]) if isinstance(n, ast.Call) and _u(n.func) == "NodeInfo"]
+    if len(nis) != 1 or nis[0].args:
+        raise _err("_collect_nodes_and_provisional_nodes: expected one NodeInfo(...) with keywords")
+    ni = {k.arg: k.value for k in nis[0].keywords}
+    if sorted(ni) != ["arg_name", "path", "task_name", "task_path", "value"]:
+        raise _err(f"NodeInfo keywords {sorted(ni)}")
+    inner = {}
+    for f, e in ni.items():
+        if not isinstance(e, ast.Name):
+            raise _err(f"NodeInfo({f}={_u(e)})")
+        inner[f] = "tree_path" if e.id == lp else "leaf" if e.id == lx else ("h:" + e.id if e.id in hparams else None)
+        if inner[f] is None:
+            raise _err(f"NodeInfo({f}={e.id}): unknown name")
+    # the collector of task functions
+    top = _func(co, "pytask_collect_task")
+    tparams = [a.arg for a in top.args.args]
+    if tparams[:4] != ["session", "path", "name", "obj"]:
+        raise _err(f"pytask_collect_task parameters {tparams}")
+    tlocals = {}
+    for n in ast.walk(top):
+        if isinstance(n, ast.Assign) and len(n.targets) == 1 and isinstance(n.targets[0], ast.Name):
+            tlocals.setdefault(n.targets[0].id, []).append(n.value)
+
+    def top_symbol(e):
+        if isinstance(e, ast.Name):
+            if e.id == "path":
+                return "modulePath"
+            if e.id == "name":
+                return "taskName"
+            if e.id in ("session", "obj"):
+                return "other"
+            vals = tlocals.get(e.id, [])
+            if len(vals) == 1:
+                return top_symbol(vals[0])
+            raise _err(f"pytask_collect_task: {e.id} assigned {len(vals)} times")
+        if isinstance(e, ast.IfExp) and _u(e.test) == "path is None" and _u(e.orelse) == "path.parent":
+            return "moduleDir"
+        if isinstance(e, ast.Attribute) and _u(e) == "path.parent":
+            return "moduleDir"
+        raise _err(f"pytask_collect_task: argument {_u(e)}")
+
+    out = {}
+    for side, fname in (("dep", "parse_dependencies_from_task_function"), ("prod", "parse_products_from_task_function")):
+        fn = _func(cu, fname)
+        fparams = [a.arg for a in fn.args.args]
+        tcalls = [n for n in ast.walk(top) if isinstance(n, ast.Call) and _u(n.func) == fname]
+        if len(tcalls) != 1:
+            raise _err(f"pytask_collect_task calls {fname} {len(tcalls)} times")
+        outer = {p: top_symbol(e) for p, e in _bind(tcalls[0], fparams, fname).items()}
+        calls = [n for n in ast.walk(fn) if isinstance(n, ast.Call) and _u(n.func) == "_collect_nodes_and_provisional_nodes"]
+        if not calls:
+            raise _err(f"{fname} does not call _collect_nodes_and_provisional_nodes")
+        wir = None
+        for c in calls:
+            b = _bind(c, hparams, fname)
+            w = {}
+            for f, src in inner.items():
+                if f == "value":
+                    continue
+                if not src.startswith("h:"):
+                    w[f] = {"tree_path": "treePath", "leaf": "other"}[src]
+                    continue
+                e = b.get(src[2:])
+                if e is None:
+                    raise _err(f"{fname}: {src[2:]} not passed")
+                if isinstance(e, ast.Name) and e.id in fparams:
+                    w[f] = outer.get(e.id) or "other"
+                elif f == "arg_name" and (isinstance(e, ast.Name) or (isinstance(e, ast.Constant) and e.value == "return")):
+                    w[f] = "parameter"
+                else:
+                    raise _err(f"{fname}: NodeInfo.{f} <- {_u(e)}")
+            if wir is not None and w != wir:
+                raise _err(f"{fname}: its calls wire NodeInfo differently")
+            wir = w
+        out[side] = wir
+    return out
+
+
 def hashsrc_section() -> list[str]:
     host = _host()
     strs = lambda xs: host.lean_list(xs, host.lean_str)  # noqa: E731
@@ -888,6 +997,12 @@ def hashsrc_section() -> list[str]:
     wk, wf = _dependency_wrapper(host)
     L.append("/-- `collect_utils.collect_dependency`: the wrapper around a PythonNode whose value is still unset. -/")
     L.append(f"def dependencyWrapper : Wrapper := .{wk} {strs(wf)}")
+    wiring = _nodeinfo_wiring(host)
+    L.append("/-- the `NodeInfo` of a dependency / product argument (`collect.pytask_collect_task` → `collect_utils.parse_…_from_task_function`")
+    L.append("→ `_collect_nodes_and_provisional_nodes`): which quantity each field is filled with. -/")
+    for side, key in (("dep", "depNodeInfo"), ("prod", "prodNodeInfo")):
+        w = wiring[side]
+        L.append(f"def {key} : List (String × NISrc) := [" + ", ".join(f'("{f}", .{w[f]})' for f in ("arg_name", "path", "task_name", "task_path")) + "]")
     L.append("end Hsrc")
     L.append("")
     return L
